@@ -53,6 +53,10 @@ GPG_STATES = [
     ("hdr_odd", "invalid"),
     ("hdr_empty", "invalid"),
     ("hugehdr_garbage_sig", "invalid"),
+    ("alg_sha512_declared_and_used", "invalid"),
+    ("alg_sha1_declared_and_used", "invalid"),
+    ("alg_sha384_declared_and_used", "invalid"),
+    ("alg_sha512_declared_sha256_used", "valid"),
     ("none", "invalid"),
     ("bare_string", "invalid"),
     ("len_plus", "invalid"),
@@ -206,6 +210,19 @@ def make_gpg(state, key, data, rng):
     if state == "hdr_empty":
         e = openpgp.make_entry(seed, data, b"")
         return e  # well-formedness requires a non-empty hex string
+    if state.startswith("alg_"):
+        # GnuPG-shaped header DECLARING another digest algorithm (byte 3).  The only valid signature in this scheme is over
+        # SHA-256 whatever the unsigned header says; one made over the declared digest must not count.
+        import hashlib as _hl
+
+        algo = {"sha512": (0x0A, _hl.sha512), "sha1": (0x02, _hl.sha1), "sha384": (0x09, _hl.sha384)}[state.split("_")[1]]
+        hb = bytearray(_hdr(rng))
+        hb[3] = algo[0]
+        hb = bytes(hb)
+        if state.endswith("sha256_used"):
+            return openpgp.make_entry(seed, data, hb)
+        dg = algo[1](data + hb + b"\x04\xff" + openpgp.be32(len(hb))).digest()
+        return {"other_headers": hb.hex(), "signature": ed25519.sign(seed, dg).hex()}
     if state == "hugehdr_garbage_sig":
         # well-formed entry, arbitrary signature value, header longer than any OpenPGP hashed area can be
         n = rng.choice([65541, 65542, 65600, 100000])
